@@ -16,6 +16,7 @@ import (
 	"path/filepath"
 	"strings"
 	"sync"
+	"syscall"
 	"time"
 
 	"github.com/ErdemOzgen/blackdagger/internal/dag"
@@ -127,6 +128,7 @@ type IOScenario struct {
 	Order     string `json:"order"`    // outfirst | errfirst | chunks
 	DoneChan  bool   `json:"doneChan"` // Schedule with a done channel (the agent's way)
 	TailLate  bool   `json:"tailLate"` // force: deferred teardown of a failed attempt runs after the next attempt was set up
+	Repeat    int    `json:"repeat"`   // > 0: a repeating step with continueOn.failure, stopped once it has run this many iterations
 }
 
 func RunNodeIO(self string, sc IOScenario, base string) Ev {
@@ -153,6 +155,10 @@ func RunNodeIO(self string, sc IOScenario, base string) Ev {
 	}
 	if sc.Retries > 0 {
 		st.RetryPolicy = &dag.RetryPolicy{Limit: sc.Retries, Interval: time.Millisecond}
+	}
+	if sc.Repeat > 0 {
+		st.RepeatPolicy = dag.RepeatPolicy{Repeat: true, Interval: 5 * time.Millisecond}
+		st.ContinueOn = dag.ContinueOn{Failure: true}
 	}
 	g, err := scheduler.NewExecutionGraph(quietLogger, st)
 	if err != nil {
@@ -215,6 +221,23 @@ func RunNodeIO(self string, sc IOScenario, base string) Ev {
 		finished <- s.Schedule(ctx, g, done)
 	}()
 	hung := false
+	if sc.Repeat > 0 {
+		// a repeating step only ends when the run is stopped: stop it once it has run the wanted number of iterations
+		go func() {
+			dl := time.Now().Add(6 * time.Second)
+			for time.Now().Before(dl) {
+				n := 0
+				if b, err := os.ReadFile(state); err == nil {
+					fmt.Sscanf(string(b), "%d", &n)
+				}
+				if n >= sc.Repeat {
+					break
+				}
+				time.Sleep(2 * time.Millisecond)
+			}
+			s.Signal(g, syscall.SIGTERM, nil, true)
+		}()
+	}
 	select {
 	case <-finished:
 	case <-time.After(8 * time.Second):
@@ -256,6 +279,14 @@ func RunNodeIO(self string, sc IOScenario, base string) Ev {
 	last := attempts
 	// what the last attempt printed, in the order the child wrote it
 	o, e := EmitPattern("o", last, sc.NOut), EmitPattern("e", last, sc.NErr)
+	if sc.Repeat > 0 {
+		// the iterations of a repeating step share one attempt: its log holds what every iteration printed
+		o, e = nil, nil
+		for a := 1; a <= attempts; a++ {
+			o = append(o, EmitPattern("o", a, sc.NOut)...)
+			e = append(e, EmitPattern("e", a, sc.NErr)...)
+		}
+	}
 	lastAll := interleave(sc.Order, o, e)
 	rec := Ev{"id": sc.ID, "sc": sc, "hung": hung, "crashed": false, "status": ns.Status.String(), "attempts": attempts, "retryCount": ns.RetryCount,
 		"logExists": logOK, "err": fmt.Sprint(ns.Error)}
